@@ -116,10 +116,11 @@ type streamPair struct {
 }
 
 type syncPair struct {
-	call *Call
-	m    *MSync
-	w    int
-	req  *SyncReq
+	call       *Call
+	m          *MSync
+	w          int
+	req        *SyncReq
+	wasUndrain bool // the model last saw this call waiting for an undrain
 }
 
 type termPair struct {
@@ -726,7 +727,12 @@ func (c *Case) compareSync(sp *syncPair) {
 		return
 	}
 	if obs == nil {
-		c.diverge("blocked-call-not-woken", []string{"C06"}, "Synchronize of worker %d should have returned (%s %v) but is still blocked", sp.w, m.RetCode, respStr(m.Resp))
+		owners := []string{"C06"}
+		if sp.wasUndrain {
+			// Removing the drain must make the worker eligible again.
+			owners = []string{"C05", "C06"}
+		}
+		c.diverge("blocked-call-not-woken", owners, "Synchronize of worker %d should have returned (%s %v) but is still blocked", sp.w, m.RetCode, respStr(m.Resp))
 		return
 	}
 	if m.RetCode != "OK" {
@@ -812,6 +818,7 @@ func (c *Case) compareAll() {
 		if c.stop {
 			return
 		}
+		sp.wasUndrain = sp.m.State == "undrain"
 		if sp.m.State == "returned" && sp.call.Done() {
 			c.lastResp[w] = c.realObs(sp)
 			delete(c.syncs, w)
